@@ -64,8 +64,17 @@ def impl_eval(case):
         if case.get('header'):
             f.write(b'\xee' * case['header'])
         b = mciipm.Block1014(f)
-        for r in recs:
-            b.write(r)
+        if case.get('buf') == 'reused':
+            # the zero-copy loop: ONE buffer filled again and again, a memoryview / bytearray slice of it handed to write();
+            # what write() has been given must not change when the caller reuses the buffer afterwards
+            buf = bytearray(max([1] + case['lens']))
+            for i, r in enumerate(recs):
+                buf[:len(r)] = r
+                b.write(memoryview(buf)[:len(r)] if i % 2 else buf[:len(r)] if i % 4 else memoryview(buf)[:len(r)].toreadonly())
+                buf[:len(r)] = b'\xa5' * len(r)
+        else:
+            for r in recs:
+                b.write(r)
         fin = case.get('fin', 'f')
         if fin == 'f':
             b.finalise()
@@ -138,7 +147,10 @@ def explore(run, tier):
         n = rng.choice([1, 2, 3, 4, 6, 10])
         lens = [rng.choice([0, 1, 4, rng.randrange(0, 40), rng.randrange(0, 1100), rng.randrange(1000, 1030),
                             rng.randrange(2000, 2040), rng.randrange(0, 6001)]) for _ in range(n)]
-        cases.append({'k': 'stream', 'lens': lens, 'fin': rng.choice(fins)})
+        c = {'k': 'stream', 'lens': lens, 'fin': rng.choice(fins)}
+        if rng.random() < 0.1:
+            c['buf'] = 'reused'        # bytes-like arguments out of one reused buffer
+        cases.append(c)
     for n in list(range(0, 40)) + list(range(1000, 1030)) + list(range(2010, 2040)) + list(range(3030, 3040)):
         cases.append({'k': 'oneshot', 'n': n})
     # large inputs: more than 64 KiB through the one-shot blocker (chunked implementations), single writes of tens of
